@@ -37,6 +37,7 @@ Tolerances (all derived, none fitted):
            operator: exact-structure bound of DESIGN 3 on |L||L|^T + D with inner dimension k.
 """
 import math
+import re
 
 import torch
 from hypothesis import strategies as st
@@ -662,6 +663,18 @@ def _src_labels(case, Aref):
     return labels
 
 
+def _snapshot(ctx):
+    return [t.detach().clone() for _, t in ctx.tensors]
+
+
+def _unchanged(ctx, snap, check_name, what, detail):
+    """The routine works in place on a copy of the diagonal ("we are not mutating any of the LinearOperator's
+    entries", _pivoted_cholesky.py): the tensors the operator was built from must be bitwise unchanged."""
+    for (l, t), old in zip(ctx.tensors, snap):
+        if not torch.equal(t.detach(), old):
+            _fail(check_name, what, "mutated", "%s changed a tensor the operator was built from: max |delta| = %.3g" % (detail, float((t.detach() - old).abs().max())))
+
+
 def run_A(case):
     src, dt, k, tol_arg = case["src"], case["dt"], case["k"], case["tol"]
     r_k = k_recipe(src, dt)
@@ -670,15 +683,18 @@ def run_A(case):
     labels = _src_labels(case, Aref)
     labels += ["tol:%s" % tol_arg, "k:" + ("n+1" if k > n else "n" if k == n else "1" if k == 1 else "mid")]
     what = "pivoted_cholesky"
+    ctx = R.BuildCtx()
     try:
-        op = R.build(r_k)
+        op = R.build(r_k, ctx)
     except Exception as e:
         raise HarnessError("building %s raised %r" % (R.class_path(r_k), e))
+    snap = _snapshot(ctx)
     try:
         with state.linalg_log() as lines:
             out = op.pivoted_cholesky(k, error_tol=tol_arg, return_pivots=True)
     except Exception as e:
         _fail("A.exc", what, "exc:" + X.describe(e), "pivoted_cholesky(rank=%d, error_tol=%r) on %s %s raised %r" % (k, tol_arg, R.class_path(r_k), tuple(Aref.shape), e))
+    _unchanged(ctx, snap, "A.mutated", what, "pivoted_cholesky(rank=%d) on %s" % (k, R.class_path(r_k)))
     if not (isinstance(out, tuple) and len(out) == 2):
         _fail("A.shape", what, "type", "return_pivots=True returned %s" % type(out).__name__)
     L, piv = out
@@ -698,11 +714,16 @@ def run_A(case):
 # ------------------------------------------------------------------------------------------------------------------
 # Part B oracle
 # ------------------------------------------------------------------------------------------------------------------
-def _build_KD(case, r_k, r_d):
+def _where(e):
+    # both _init_cache_for_constant_diag and _init_cache_for_non_constant_diag are one code site (_init_cache) for bucketing
+    return re.sub(r"_init_cache_for_\w+", "_init_cache", X.describe(e))
+
+
+def _build_KD(case, r_k, r_d, ctx):
     from linear_operator import operators as O
 
     via = case["D"]["via"]
-    K, D = R.build(r_k), R.build(r_d)
+    K, D = R.build(r_k, ctx), R.build(r_d, ctx)
     if via == "swapped":
         return O.AddedDiagLinearOperator(D, K), via
     op = None
@@ -739,9 +760,11 @@ def run_B(case):
     except RuntimeError as e:
         raise HarnessError("generated K and D batch shapes do not broadcast: %r" % e)
     try:
-        op, via = _build_KD(case, r_k, r_d)
+        ctx = R.BuildCtx()
+        op, via = _build_KD(case, r_k, r_d, ctx)
+        snap = _snapshot(ctx)
     except Exception as e:
-        _fail("B.exc", what, "build:" + X.describe(e), "constructing K + D (%s, K batch %s, D batch %s) raised %r" % (dsp["via"], tuple(Kref.shape[:-2]), tuple(Dref.shape[:-2]), e))
+        _fail("B.exc", "build", "build:" + X.describe(e), "constructing K + D (%s, K batch %s, D batch %s) raised %r" % (dsp["via"], tuple(Kref.shape[:-2]), tuple(Dref.shape[:-2]), e))
     labels.append("via:" + via)
     should_be_on = k != 0 and n >= sset["min_preconditioning_size"]
     labels.append("precond:" + ("on" if should_be_on else "off"))
@@ -757,9 +780,10 @@ def run_B(case):
         try:
             res = op._preconditioner()
         except Exception as e:
-            _fail("B.exc", what, "exc:" + X.describe(e), "_preconditioner() of %s + %s (K batch %s, D batch %s, n=%d, k=%d) raised %r" % (R.class_path(r_k), r_d["op"], tuple(Kref.shape[:-2]), tuple(Dref.shape[:-2]), n, k, e))
+            _fail("B.exc", "precond", "exc:" + _where(e), "_preconditioner() of %s + %s (K batch %s, D batch %s, n=%d, k=%d) raised %r" % (R.class_path(r_k), r_d["op"], tuple(Kref.shape[:-2]), tuple(Dref.shape[:-2]), n, k, e))
         if not (isinstance(res, tuple) and len(res) == 3):
             _fail("B.shape", what, "type", "_preconditioner() returned %r" % (type(res).__name__,))
+        _unchanged(ctx, snap, "B.mutated", what, "_preconditioner() of %s + %s" % (R.class_path(r_k), r_d["op"]))
         closure, P, ld = res
         if not should_be_on:
             if not (closure is None and P is None and ld is None):
@@ -775,7 +799,7 @@ def run_B(case):
             sp = op._solve_preconditioner()
             C2 = sp(eye) if sp is not None else None
         except Exception as e:
-            _fail("B.exc", what, "exc:" + X.describe(e), "applying the preconditioner closure / densifying P raised %r" % (e,))
+            _fail("B.exc", "apply", "exc:" + _where(e), "applying the preconditioner closure / densifying P raised %r" % (e,))
     if Pd is None:
         _fail("B.op", what, "type", "second return value is %s, not a LinearOperator" % type(P).__name__)
     if not torch.is_tensor(ld):
